@@ -24,7 +24,7 @@ CASES = [
       "        with energy_units(\"int\"):\n            self._build(mult=mult,", "        if True:\n            self._build(mult=mult,"),
     m("energy loop skips the first molecule", "C03-G", "quantarhei/builders/aggregate_states.py",
       "        k = 0\n        for nn in self.elsignature:\n            en += \\", "        k = 0\n        for nn in self.elsignature[1:]:\n            en += \\"),
-    m("one-exciton coupling index shift dropped", "C03-F", A, "                        kk = state1.index - 1\n", "                        kk = state1.index\n"),
+    m("one-exciton coupling read one molecule further", "C03-F", A, "                        kk = list(state1.elsignature).index(1)\n", "                        kk = list(state1.elsignature).index(1) + 1\n"),
     m("dipole of a fixed molecule", "C03-G", A, "        eldip = self.get_dipole(exindx, min(n1, n2), max(n1, n2))", "        eldip = self.get_dipole(0, min(n1, n2), max(n1, n2))"),
     t("formula with common denominator", I,
       "    cc = (np.dot(d1,d2)/(RR**3)\n        - 3.0*np.dot(d1,R)*np.dot(d2,R)/(RR**5))", "    cc = (np.dot(d1,d2)*RR**2\n        - 3.0*np.dot(d1,R)*np.dot(d2,R))/(RR**5)"),
@@ -40,8 +40,8 @@ CASES += [
       "                        if k == 2:\n                            kk = sites[0]\n                            ll = sites[1]\n                            coup = self.resonance_coupling[kk,ll]\n",
       "                        if k >= 2:\n                            kk = sites[0]\n                            ll = sites[1]\n                            coup = self.resonance_coupling[kk,ll]\n"),
     m("one-exciton couplings shifted by one molecule", "C03-F", A,
-      "                        kk = es1.index - 1\n                        ll = es2.index - 1",
-      "                        kk = es1.index - 1\n                        ll = es2.index"),
+      "                        kk = list(es1.elsignature).index(1)\n                        ll = list(es2.elsignature).index(1)",
+      "                        kk = list(es1.elsignature).index(1)\n                        ll = list(es2.elsignature).index(1) + 1"),
     t("differing sites recorded without the guard", A,
       "                                if (k == 0) or (k == 1):\n                                    sites[k] = i\n                                k += 1\n                        # if there are exactly 2 differences, the differing\n                        # two molecules are those coupled; sites[k] contains\n                        # indiced those coupled molecules\n                        if k == 2:\n                            kk = sites[0]\n                            ll = sites[1]\n                            #print(kk,ll,els1,els2)",
       "                                if k < 2:\n                                    sites[k] = i\n                                k = k + 1\n                        if k == 2:\n                            kk, ll = sites\n                            #print(kk,ll,els1,els2)"),
@@ -120,4 +120,11 @@ CASES += [
     {"name": "derived matrix of correlation functions marked as supplied by the user (the repaired defect)", "kind": "mutant", "rule": "C03-I", "edits": [
         (_AB3, "                # a matrix set by the user is kept)\n                self._has_system_bath_interaction = True\n",
                "                # a matrix set by the user is kept)\n                self._has_system_bath_interaction = True\n                self._has_egcf_matrix = True\n", 1)]},
+]
+
+CASES += [
+    {"name": "molecule of a one-exciton state taken from the running number of the state (the repaired defect)", "kind": "mutant", "rule": "C03-L", "edits": [
+        (_AB3, "                        kk = list(es1.elsignature).index(1)\n", "                        kk = es1.index - 1\n", 1)]},
+    {"name": "molecule of a one-exciton state found by a loop over the signature", "kind": "twin", "edits": [
+        (_AB3, "                        kk = list(state1.elsignature).index(1)\n", "                        kk = 0\n                        for i_ in range(len(state1.elsignature)):\n                            if state1.elsignature[i_] == 1:\n                                kk = i_\n", 1)]},
 ]
